@@ -65,8 +65,23 @@ theorem mem_pairs {α : Type} (l : List α) (f g : α → String) (x : String) :
 def Schema.namesFit (s : Schema) : Prop :=
   (schemaFilePrefix ++ strToUpper s.name ++ ".init.cc").length < maxLen
 
-/-- `SCHEMAprint(schema, …, 0)` without truncation: the names it creates -/
-theorem pass0 (s : Schema) (fit : Schema.namesFit s) :
+theorem strToUpper_length (n : String) : (strToUpper n).length = n.length := by
+  unfold strToUpper
+  rw [String.length_ofList, List.length_map, String.length_toList]
+
+/-- exp2cxx's identifier gate (`print_file` refuses names longer than MAX_IDENT_LEN) makes the truncating
+    `snprintf`s of `SCHEMAprint` unreachable: every accepted schema name fits. -/
+theorem C17_gate_prevents_truncation (s : Schema) (gate : s.name.length ≤ maxIdentLen) : Schema.namesFit s := by
+  unfold Schema.namesFit
+  have e8 : (".init.cc" : String).length = 8 := by decide
+  have e4 : schemaFilePrefix.length = 4 := by decide
+  have hm : maxIdentLen = 200 := by decide
+  have hl : maxLen = 240 := by decide
+  rw [String.length_append, String.length_append, strToUpper_length, e8, e4]
+  omega
+
+/-- `SCHEMAprint(schema, …, 0)` for an accepted schema name: the names it creates -/
+theorem pass0 (s : Schema) (gate : s.name.length ≤ maxIdentLen) :
     Cxx.schemaPass s 0 = some
       { inc := schemaFilePrefix ++ strToUpper s.name ++ ".h",
         lib := schemaFilePrefix ++ strToUpper s.name ++ ".cc",
@@ -76,6 +91,7 @@ theorem pass0 (s : Schema) (fit : Schema.namesFit s) :
         unityEntHdr := Cxx.ccToH (schemaFilePrefix ++ strToUpper s.name ++ "_unity_" ++ "entities.cc"),
         unityTypeImpl := schemaFilePrefix ++ strToUpper s.name ++ "_unity_" ++ "types.cc",
         unityTypeHdr := Cxx.ccToH (schemaFilePrefix ++ strToUpper s.name ++ "_unity_" ++ "types.cc") } := by
+  have fit := C17_gate_prevents_truncation s gate
   unfold Schema.namesFit at fit
   have e8 : (".init.cc" : String).length = 8 := by decide
   have e7 : ("Names.h" : String).length = 7 := by decide
@@ -89,21 +105,21 @@ theorem pass0 (s : Schema) (fit : Schema.namesFit s) :
   have f3 : (schemaFilePrefix ++ strToUpper s.name ++ ".init.cc").length < maxLen := by
     rw [String.length_append, e8]; omega
   unfold Cxx.schemaPass
-  have hno : ¬ (schemaFilePrefix ++ strToUpper s.name).length > maxLen := by omega
+  have hno : ¬ s.name.length > maxIdentLen := by omega
   simp only [hno, if_false, beq_self_eq_true, if_true, Nat.zero_le]
-  rw [snprintf_id _ _ f0, snprintf_id _ _ f1, snprintf_id _ _ f2, snprintf_id _ _ f3, lib_name]
+  rw [snprintf_id _ _ f0, snprintf_id _ _ f0, snprintf_id _ _ f1, snprintf_id _ _ f2, snprintf_id _ _ f3, lib_name]
 
 /-! ## the headline: same file set, for every schema -/
 
-/-- For every schema with well-formed type bodies whose names fit the buffers, printed by exp2cxx in one pass
+/-- For every schema with well-formed type bodies whose name passes exp2cxx's identifier gate, printed by exp2cxx in one pass
     (suffix 0): a file name is mentioned in the CMakeLists.txt the scanner writes **iff** it is one of the files
     exp2cxx creates that a build has to know about (everything it creates except the two unity headers, which are
     only `#include`d by the listed unity sources). -/
-theorem C17_same_files (path : String) (s : Schema) (wf : s.wf) (fit : Schema.namesFit s) :
+theorem C17_same_files (path : String) (s : Schema) (wf : s.wf) (gate : s.name.length ≤ maxIdentLen) :
     ∃ p, Cxx.schemaPass s 0 = some p ∧
       ∀ x, x ∈ (Scanner.cmake path s).listed ↔
            x ∈ fixedFiles ++ p.listedPart ++ Cxx.typeFiles s ++ Cxx.entityFiles s := by
-  refine ⟨_, pass0 s fit, ?_⟩
+  refine ⟨_, pass0 s gate, ?_⟩
   intro x
   have ht := C17_type_lists s wf
   have hE := mem_pairs s.entities entityHeader entityImpl x
@@ -137,20 +153,25 @@ def files0 (s : Schema) : List String :=
   [Cxx.ccToH (schemaFilePrefix ++ strToUpper s.name ++ "_unity_" ++ "entities.cc"),
    Cxx.ccToH (schemaFilePrefix ++ strToUpper s.name ++ "_unity_" ++ "types.cc")]
 
-theorem schemaAll0 (s : Schema) (fit : Schema.namesFit s) : Cxx.schemaAll s [0] = some (files0 s) := by
-  simp [Cxx.schemaAll, Cxx.allSome, pass0 s fit, files0, Cxx.PassFiles.listedPart, Cxx.PassFiles.includedOnly]
+theorem schemaAll0 (s : Schema) (gate : s.name.length ≤ maxIdentLen) : Cxx.schemaAll s [0] = some (files0 s) := by
+  simp [Cxx.schemaAll, Cxx.allSome, pass0 s gate, files0, Cxx.PassFiles.listedPart, Cxx.PassFiles.includedOnly]
 
 /-- File level, any number of schemas, each printed in one pass: everything any CMakeLists.txt lists is created,
     and everything created is listed by the CMakeLists.txt of its schema or is one of that schema's two unity
     headers (the `.h` twins of the listed unity sources). -/
-theorem C17_file (f : SchemaFile) (wf : ∀ s ∈ f.schemas, s.wf) (fit : ∀ s ∈ f.schemas, Schema.namesFit s)
+theorem C17_file (f : SchemaFile) (wf : ∀ s ∈ f.schemas, s.wf) (acc : Cxx.accepts f = true)
     (ne : f.schemas ≠ []) :
     ∃ l, Cxx.created f (fun _ => [0]) = some l ∧
       (∀ s ∈ f.schemas, ∀ x ∈ (Scanner.cmake f.path s).listed, x ∈ l) ∧
       (∀ x ∈ l, ∃ s ∈ f.schemas, x ∈ (Scanner.cmake f.path s).listed ∨
           x = Cxx.ccToH (Scanner.cmake f.path s).unityEntityImpl ∨ x = Cxx.ccToH (Scanner.cmake f.path s).unityTypeImpl) := by
+  have fit : ∀ s ∈ f.schemas, s.name.length ≤ maxIdentLen := by
+    intro s hs
+    have := List.all_eq_true.mp acc s hs
+    simp only [Bool.and_eq_true, decide_eq_true_eq] at this
+    exact this.1
   have hall := allSome_map f.schemas (fun s => Cxx.schemaAll s [0]) files0 (fun s hs => schemaAll0 s (fit s hs))
-  refine ⟨fixedFiles ++ (f.schemas.map files0).flatten, by simp [Cxx.created, hall], ?_, ?_⟩
+  refine ⟨fixedFiles ++ (f.schemas.map files0).flatten, by simp [Cxx.created, hall, acc], ?_, ?_⟩
   · intro s hs x hx
     obtain ⟨p, hp, hsame⟩ := C17_same_files f.path s (wf s hs) (fit s hs)
     rw [pass0 s (fit s hs)] at hp
@@ -242,34 +263,31 @@ theorem C17_multipass_witness :
     (Cxx.schemaAll s [1, 2]).map (fun l => l.contains "SdaiAA.h" || !l.contains "SdaiAA_1.h") = some false := by
   decide
 
-/-- Whenever `Sdai<NAME>Names.h` does not fit MAX_LEN-1 characters (schema names of 229 characters and more),
-    exp2cxx's name for that file is cut by `snprintf(…, MAX_LEN, …)` and differs from the name the scanner lists.
-    (Replayed on the real programs: input `schema-name-232-chars`.) -/
-theorem C17_truncation_witness (path : String) (s : Schema)
-    (h1 : (schemaFilePrefix ++ strToUpper s.name).length ≤ maxLen)
-    (h2 : maxLen ≤ (schemaFilePrefix ++ strToUpper s.name ++ "Names.h").length) :
-    "Sdai" ++ strToUpper s.name ++ "Names.h" ∈ (Scanner.cmake path s).listed ∧
-    (Cxx.schemaPass s 0).map (·.names) = some (Cxx.snprintfN maxLen (schemaFilePrefix ++ strToUpper s.name ++ "Names.h")) ∧
-    (Cxx.snprintfN maxLen (schemaFilePrefix ++ strToUpper s.name ++ "Names.h")).length = maxLen - 1 ∧
-    Cxx.snprintfN maxLen (schemaFilePrefix ++ strToUpper s.name ++ "Names.h") ≠ "Sdai" ++ strToUpper s.name ++ "Names.h" := by
-  constructor
-  · simp [Scanner.CMake.listed, Scanner.cmake, miscHdrs]
-  · have hno : ¬ (schemaFilePrefix ++ strToUpper s.name).length > maxLen := by omega
-    have hl : (Cxx.snprintfN maxLen (schemaFilePrefix ++ strToUpper s.name ++ "Names.h")).length = maxLen - 1 := by
-      unfold Cxx.snprintfN
-      rw [String.length_ofList, List.length_take, String.length_toList]
-      omega
-    refine ⟨by simp only [Cxx.schemaPass, hno, if_false, Option.map], hl, ?_⟩
-    intro e
-    have := congrArg String.length e
-    rw [hl] at this
-    have e' : ("Sdai" : String) = schemaFilePrefix := rfl
-    rw [e'] at this
-    have hm : maxLen = 240 := rfl
-    omega
+/-- A schema with neither types nor entities (only functions, constants, rules …) is never handed to `SCHEMAprint`
+    (multpass.c: `if( val1 || val2 )`): exp2cxx creates none of its per-schema files, the scanner lists all of them.
+    (Replayed on the real programs: input `schema-without-entities-and-types`.) -/
+theorem C17_empty_schema_witness :
+    let s : Schema := { name := "only_fun", decls := [.other "ff"] }
+    let f : SchemaFile := { path := "/w/empty_schema_file.exp", schemas := [s] }
+    (Cxx.passes f).map (fun pf => pf s) = some [] ∧
+    Cxx.created f (fun _ => []) = some fixedFiles ∧
+    "SdaiONLY_FUN.h" ∈ (Scanner.cmake f.path s).listed ∧ "SdaiONLY_FUN.h" ∉ fixedFiles := by
+  decide
+
+/-- … while every schema that has a type or an entity and no interface clause is printed exactly once, suffix 0. -/
+theorem C17_passes_nonempty (f : SchemaFile) (pf : Schema → List Nat) (h : Cxx.passes f = some pf) (s : Schema)
+    (ne : s.types ≠ [] ∨ s.entities ≠ []) : pf s = [0] := by
+  unfold Cxx.passes at h
+  split at h
+  · have := Option.some.inj h
+    subst this
+    rcases ne with ne | ne
+    · simp [List.isEmpty_iff, ne]
+    · simp [List.isEmpty_iff, ne]
+  · exact absurd h (by simp)
 
 /-- non-vacuity of the hypotheses above -/
-example : ∃ s : Schema, s.wf ∧ Schema.namesFit s := ⟨{ name := "s", decls := [.type { name := "t", kind := .select_, hasHead := true }] },
-  by intro t ht; simp [Schema.types] at ht; subst ht; decide, by unfold Schema.namesFit; decide⟩
+example : ∃ s : Schema, s.wf ∧ s.name.length ≤ maxIdentLen := ⟨{ name := "s", decls := [.type { name := "t", kind := .select_, hasHead := true }] },
+  by intro t ht; simp [Schema.types] at ht; subst ht; decide, by decide⟩
 
 end StepModel.Props.C17
